@@ -613,6 +613,9 @@ func (r *c01run[V]) construct(rng *core.Rng) bool {
 	if rng.Chance(1, 8) {
 		n = rng.Range(7, 24)
 	}
+	if rng.Chance(1, 80) {
+		n = rng.Range(25, 200)
+	}
 	vs := r.genVals(rng, n)
 	how := rng.Intn(5)
 	var zero V
